@@ -19,7 +19,7 @@ VEC_BAD = ["BOOL[01]", "BOOL[+1]", "BOOL[00]", "BOOL[001,1]", "BOOL[1,+0]", "BOO
            "INT[a]", "INT[1, 2]", "BOOL[2]", "BOOL[TRUE]", "BOOL[true,FALSE]", "BOOL[1,", "FLOAT[x]", "FLOAT[1,,2]", "FLOAT[1.5", "FLOAT[NANu]",
            "INT[1,2é", "INT[1,2]é", "INT[é", "FLOAT[1€", "BOOL[1\U0001F600", "INT[é1]", "INT[1é,2]", "BOOL[あ]",
            "INT]", "int[1]", "INT [1]", "INTT[1]", "XINT[1]", "INT[[1]]", "INT[1]]", "INT[INT[1]]", "FLOAT[1.5]]", "BOOL[[", "INT[(]", "INT[)"]
-NAMES = ["A", "B", "x1", "foo", "a.b", "NOTANINSTRUCTION", "true", "false", "True", "TRUE1", "(A", "A)", "()", "((", "[1,2]", "é", "éé",
+NAMES = ["POINT.X", "MY.VAR", "A.B", "X.+", "INTEGER.FOO", "CODE.", ".DUP", "x[3]", "a[", "f(x)", "in_f", "1_000", "_7", "A", "B", "x1", "foo", "a.b", "NOTANINSTRUCTION", "true", "false", "True", "TRUE1", "(A", "A)", "()", "((", "[1,2]", "é", "éé",
          "\U0001F600", "INT", "FLOAT", "BOOL", "INTEGER.", "integer.+", "1a", "a1", "-", "+", "_", "​", "﻿", "a​b", "\u0000", "\u001f"]
 
 
@@ -150,7 +150,7 @@ def rand_soup(rng, instrs, n):
 
 
 # ---- items (wire form) ----
-PRINT_NAMES = ["A", "B", "x1", "foo", "a.b", "NOTANINSTRUCTION", "true", "é", "\U0001F600", "INT", "[1,2]", "(A", "1a", "_"]
+PRINT_NAMES = ["POINT.X", "MY.VAR", "X.+", "x[3]", "a[", "in_f", "_7x", "A", "B", "x1", "foo", "a.b", "NOTANINSTRUCTION", "true", "é", "\U0001F600", "INT", "[1,2]", "(A", "1a", "_"]
 ODD_NAMES = ["5", "-3", "1.5", "TRUE", "FALSE", "(", ")", "INT[1]", "a b", "", " ", "inf", "nan", "1e5", "+", " ", "x　y", "INTEGER.+"]
 
 
